@@ -273,6 +273,7 @@ LEVEL_TEXT = ('Generated-input search over all 132 (o_dim, ri_dim) integer pairs
               'levels or expose intermediate lowpasses, bit for bit; the inverse with the matching pair must accept the '
               'layout and agree with the default inverse; J-level and j-level pyramids must share their first j levels; '
               'the two internal axis tables are enumerated completely in every case.')
+LEVEL_TEXT += (' Also generated: every accepted padding-mode name, mask containers, repeated calls of the same module (same pyramid again, earlier returned lists untouched); thorough tier adds two atheris campaigns.')
 LEVEL_NOTE = ('Metamorphic relations against the library itself (its absolute correctness is C03/C04/C11); bitwise equality '
               'relies on deterministic CPU kernels (a difference of up to 64 ulp of the largest value is counted, not failed).')
 TECHNIQUE = 'property-based testing (Hypothesis), metamorphic relations (axis permutation, masking, prefix) checked bitwise'
